@@ -83,6 +83,20 @@ def tags_of(beh):
             t.add("%s-range:%s" % (k, "".join(shape)))
         if k in ("CherryPickR", "CherryPickManyR", "RebaseR"):
             t.add("%s:%s:%s" % (k, a["res"], a["how"]))
+            if k == "CherryPickManyR":
+                # who wrote what the two picked commits add (commit numbers follow the Commit actions; base = 1)
+                eo = {}
+                kk = 1
+                pend = []
+                for b in beh[:i]:
+                    if b["a"] == "Edit":
+                        pend.append(b)
+                    elif b["a"] == "Commit":
+                        kk += 1
+                        eo[kk] = pend
+                        pend = []
+                who = ["A" if any(e["who"] != "H" for e in eo.get(c, [])) else "h" for c in a["cs"]]
+                t.add("pickmanyR:%s:%s:stops%s" % (a["how"], "".join(who), (a.get("exp") or {}).get("stops", "?")))
         if k == "IRebase":
             t.add("irebase:%s" % "/".join(str(len(g)) for g in a["plan"]) + ":n%d" % a["n"])
         if k in ("Rebase", "CherryPick", "Amend", "MergeSquash", "Switch", "IRebase", "CherryPickMany"):
@@ -217,6 +231,25 @@ def tags_of(beh):
     sessions = {a["who"] for a in beh if a["a"] == "Edit" and a["who"] != "H"}
     if len(sessions) > 1:
         t.add("two-sessions")
+        # lines of several sessions interleaved inside one file at commit time (S1 above AND below S2's lines)
+        owner = {}
+        content = {}
+        for a in beh:
+            if a["a"] == "Edit":
+                for u, w in a["c"]:
+                    owner.setdefault(u, a["who"])
+                content[a["f"]] = a["c"]
+            elif a["a"] in ("Commit", "Amend"):
+                for f, c in content.items():
+                    seq = []
+                    for u, w in c:
+                        o = owner.get(u, "H")
+                        if o != "H" and (not seq or seq[-1] != o):
+                            seq.append(o)
+                    if len(seq) >= 3 and len(set(seq)) < len(seq):
+                        t.add("sessions-interleaved")
+                    elif len(set(seq)) >= 2:
+                        t.add("sessions-stacked")
     return frozenset(t)
 
 
